@@ -292,11 +292,11 @@ def run_impl(script: str, payload, timeout=1800, env=None):
     return json.loads(p.stdout)
 
 
-def run_impl_parallel(script: str, payloads: list, jobs=16, timeout=1800):
+def run_impl_parallel(script: str, payloads: list, jobs=16, timeout=1800, env=None):
     from concurrent.futures import ThreadPoolExecutor
 
     with ThreadPoolExecutor(max_workers=jobs) as ex:
-        return list(ex.map(lambda pl: run_impl(script, pl, timeout), payloads))
+        return list(ex.map(lambda pl: run_impl(script, pl, timeout, env), payloads))
 
 
 # --------------------------------------------------------------------------- known findings / verdict
